@@ -186,10 +186,11 @@ class Builder:
                 m = re.match(r"^(\S+) -> (\S+)$", line.strip())
                 if m:
                     edges.setdefault(base(m.group(1)), set()).add(base(m.group(2)))
-        stop = {"utf8_nfkd_lazy": {"polyseed_decode", "polyseed_decode_explicit"},
-                "str_split": {"polyseed_decode", "polyseed_decode_explicit"},
-                "polyseed_phrase_decode": {"polyseed_decode"},
-                "polyseed_phrase_decode_explicit": {"polyseed_decode_explicit"},
+        # functions the harness of an API function replaces by stubs: their locals
+        # are not part of that harness's obligations (they have their own harness)
+        dec = {"polyseed_decode", "polyseed_decode_explicit"}
+        stop = {"utf8_nfkd_lazy": dec, "str_split": dec,
+                "polyseed_phrase_decode": dec, "polyseed_phrase_decode_explicit": dec,
                 "write_str": {"polyseed_encode"},
                 "lang_search": {"polyseed_phrase_decode", "polyseed_phrase_decode_explicit"},
                 "polyseed_lang_check": set(self.C16_CLOSURE)}
